@@ -1,5 +1,6 @@
 import Model.Lib.Fips197
 import Model.Gen.AesTables
+import Proofs.Lemmas.Prng
 /-!
 # C18 — AES and PRNG generators implement their published algorithms
 
@@ -48,5 +49,101 @@ theorem mix_columns_inverse_constants : ∀ i : Fin 4, ∀ k : Fin 4,
         acc ^^^ gmul (invMixMults[(j + 4 - i.val) % 4]!) (mixMults[(k.val + 4 - j) % 4]!)) 0)
       = if i = k then 1 else 0 := by
   decide +kernel
+
+/-! ## `prng_lfsr`: the leap-ahead register equals the published LFSR under every load/req history
+
+`Prng.lfsrStep` is one clock edge of the register-level model of the netlist (leap-ahead by `bitwidth`
+concatenations, truncation by the register, `load` before `req`); it is compared with the real circuit
+cycle by cycle on random load/req/seed histories by tools/checks/c18.py.  `Prng.step1` is one step of the
+127-bit Fibonacci LFSR with taps 126/125 (in a register of `max 127 bitwidth` bits). -/
+open Pyrtl.Prng in
+/-- one clock edge: reseed on `load`, leap exactly `bitwidth` single LFSR steps on `req`, else hold -/
+theorem lfsr_step_eq_spec (bw st seed : Nat) (load req : Bool) :
+    lfsrStep bw st load req seed % 2 ^ regW bw = specStep bw st load req seed % 2 ^ regW bw := by
+  unfold lfsrStep specStep
+  split
+  · rfl
+  · split
+    · rw [Nat.mod_mod, grow_mod _ (regW_ge bw)]
+    · rfl
+
+open Pyrtl.Prng in
+/-- a register value stays inside the register -/
+theorem lfsr_state_lt (bw st seed : Nat) (load req : Bool) (hst : st < 2 ^ regW bw) (hseed : seed < 2 ^ 127) :
+    lfsrStep bw st load req seed < 2 ^ regW bw := by
+  unfold lfsrStep
+  split
+  · exact lt_of_lt_of_le hseed (Nat.pow_le_pow_right (by decide) (regW_ge bw))
+  · split
+    · exact Nat.mod_lt _ (Nat.two_pow_pos _)
+    · exact hst
+
+open Pyrtl.Prng in
+/-- **every history** of `(load, req, seed)` cycles from any register state: the model of the netlist and the
+    published algorithm are in the same state after it -/
+theorem lfsr_history_eq_spec (bw : Nat) (ins : List (Bool × Bool × Nat)) :
+    ∀ st, st < 2 ^ regW bw → (∀ i ∈ ins, i.2.2 < 2 ^ 127) →
+      ins.foldl (fun st i => lfsrStep bw st i.1 i.2.1 i.2.2) st =
+      ins.foldl (fun st i => specStep bw st i.1 i.2.1 i.2.2) st := by
+  induction ins with
+  | nil => intros; rfl
+  | cons i rest ih =>
+    intro st hst hseed
+    simp only [List.foldl_cons]
+    have hlt := lfsr_state_lt bw st i.2.2 i.1 i.2.1 hst (hseed i (by simp))
+    have heq : lfsrStep bw st i.1 i.2.1 i.2.2 = specStep bw st i.1 i.2.1 i.2.2 := by
+      have h := lfsr_step_eq_spec bw st i.2.2 i.1 i.2.1
+      rw [Nat.mod_eq_of_lt hlt] at h
+      rw [h]
+      apply Nat.mod_eq_of_lt
+      unfold specStep
+      split
+      · exact lt_of_lt_of_le (hseed i (by simp)) (Nat.pow_le_pow_right (by decide) (regW_ge bw))
+      · split
+        · exact iter_step1_lt _ _ _ hst
+        · exact hst
+    rw [← heq]
+    exact ih _ hlt (fun j hj => hseed j (List.mem_cons_of_mem _ hj))
+
+open Pyrtl.Prng in
+theorem iter_add (f : Nat → Nat) (a b x : Nat) : iter f a (iter f b x) = iter f (a + b) x := by
+  induction a with
+  | zero => simp [iter]
+  | succ a ih => rw [Nat.succ_add]; simp only [iter, ih]
+
+open Pyrtl.Prng in
+/-- closed form: after a load of `S` (from any earlier state, a coinciding request being ignored), any
+    sequence of cycles without load leaves the register at `S` advanced by `bitwidth` single steps per
+    request pulse, whatever the idle cycles in between and whatever the seed input does meanwhile -/
+theorem lfsr_after_load (bw S st0 : Nat) (r0 : Bool) (hS : S < 2 ^ 127) (ops : List (Bool × Nat)) :
+    ops.foldl (fun st o => lfsrStep bw st false o.1 o.2) (lfsrStep bw st0 true r0 S) =
+      iter (step1 (regW bw)) (bw * (ops.filter (·.1)).length) S := by
+  have h0 : lfsrStep bw st0 true r0 S = S := by simp [lfsrStep]
+  rw [h0]
+  have hSW : S < 2 ^ regW bw := lt_of_lt_of_le hS (Nat.pow_le_pow_right (by decide) (regW_ge bw))
+  suffices h : ∀ st, st < 2 ^ regW bw →
+      ops.foldl (fun st o => lfsrStep bw st false o.1 o.2) st =
+        iter (step1 (regW bw)) (bw * (ops.filter (·.1)).length) st from h S hSW
+  induction ops with
+  | nil => intro st _; simp [iter]
+  | cons o rest ih =>
+    intro st hst
+    simp only [List.foldl_cons]
+    cases ho : o.1 with
+    | false =>
+      have : lfsrStep bw st false false o.2 = st := by simp [lfsrStep]
+      rw [this, ih st hst]
+      simp [List.filter, ho]
+    | true =>
+      have hstep : lfsrStep bw st false true o.2 = iter (step1 (regW bw)) bw st := by
+        simp only [lfsrStep, Bool.false_eq_true, if_false, if_true]
+        rw [grow_mod _ (regW_ge bw)]
+        exact Nat.mod_eq_of_lt (iter_step1_lt _ _ _ hst)
+      rw [hstep, ih _ (iter_step1_lt _ _ _ hst), iter_add]
+      simp [List.filter, ho, Nat.mul_succ]
+
+-- satisfiable hypotheses / concrete instance: 5-bit output, seed 1, two requests
+example : Prng.lfsrTrace 5 0 [(true, false, 2 ^ 126 + 1), (false, true, 0), (false, false, 0), (true, true, 3), (false, false, 0)]
+    = [0, 1, 16, 16, 3] := by decide +kernel
 
 end Pyrtl.C18
